@@ -8,8 +8,53 @@ verus! {
 //@enum src/react/utils.rs ReactorHandle
 
 // ---------------- EventAccessTracker (broadcast + entity events) ----------------
+
+// ---- `start`: the index std's position() returns IS the first index of the recursive spec used by units `commands` / L1 -------
+pub open spec fn first_idx<M>(s: Seq<(SystemCommand, M)>, r: SystemCommand) -> int decreases s.len()
+{ if s.len() == 0 { -1 } else if s[0].0 == r { 0 } else { let t = first_idx(s.subrange(1, s.len() as int), r); if t < 0 { -1 } else { t + 1 } } }
+pub open spec fn first_idx3<A, B>(s: Seq<(SystemCommand, A, B)>, r: SystemCommand) -> int decreases s.len()
+{ if s.len() == 0 { -1 } else if s[0].0 == r { 0 } else { let t = first_idx3(s.subrange(1, s.len() as int), r); if t < 0 { -1 } else { t + 1 } } }
+pub proof fn lemma_first_idx_none<M>(s: Seq<(SystemCommand, M)>, r: SystemCommand)
+    requires forall|j: int| 0 <= j < s.len() ==> (#[trigger] s[j]).0 != r,
+    ensures first_idx(s, r) == -1,
+    decreases s.len(),
+{
+    if s.len() > 0 { let t = s.subrange(1, s.len() as int); assert forall|j: int| 0 <= j < t.len() implies (#[trigger] t[j]).0 != r by { assert(t[j] == s[j + 1]); } lemma_first_idx_none(t, r); }
+}
+pub proof fn lemma_first_idx_some<M>(s: Seq<(SystemCommand, M)>, r: SystemCommand, i: int)
+    requires 0 <= i < s.len(), s[i].0 == r, forall|j: int| 0 <= j < i ==> (#[trigger] s[j]).0 != r,
+    ensures first_idx(s, r) == i,
+    decreases s.len(),
+{
+    if i > 0 { let t = s.subrange(1, s.len() as int); assert(t[i - 1] == s[i]); assert forall|j: int| 0 <= j < i - 1 implies (#[trigger] t[j]).0 != r by { assert(t[j] == s[j + 1]); } lemma_first_idx_some(t, r, i - 1); }
+}
+pub proof fn lemma_first_idx3_none<A, B>(s: Seq<(SystemCommand, A, B)>, r: SystemCommand)
+    requires forall|j: int| 0 <= j < s.len() ==> (#[trigger] s[j]).0 != r,
+    ensures first_idx3(s, r) == -1,
+    decreases s.len(),
+{
+    if s.len() > 0 { let t = s.subrange(1, s.len() as int); assert forall|j: int| 0 <= j < t.len() implies (#[trigger] t[j]).0 != r by { assert(t[j] == s[j + 1]); } lemma_first_idx3_none(t, r); }
+}
+pub proof fn lemma_first_idx3_some<A, B>(s: Seq<(SystemCommand, A, B)>, r: SystemCommand, i: int)
+    requires 0 <= i < s.len(), s[i].0 == r, forall|j: int| 0 <= j < i ==> (#[trigger] s[j]).0 != r,
+    ensures first_idx3(s, r) == i,
+    decreases s.len(),
+{
+    if i > 0 { let t = s.subrange(1, s.len() as int); assert(t[i - 1] == s[i]); assert forall|j: int| 0 <= j < i - 1 implies (#[trigger] t[j]).0 != r by { assert(t[j] == s[j + 1]); } lemma_first_idx3_some(t, r, i - 1); }
+}
 //@struct src/react/event_readers.rs EventAccessTracker
 //@impl src/react/event_readers.rs impl EventAccessTracker
+//@fn src/react/event_readers.rs impl EventAccessTracker start
+//@| ensures ({ let i = first_idx(old(self).prepared@, reactor);
+//@|     if i < 0 { *final(self) == *old(self) }
+//@|     else { final(self).prepared@ == old(self).prepared@.remove(i) && final(self).currently_reacting && final(self).data_entity == old(self).prepared@[i].1 } }),
+//@liftposition let Some(pos) | start_position | (SystemCommand, Entity) |
+//@lift| ensures r is None ==> first_idx(verif_v@, reactor) == -1,
+//@lift|         r is Some ==> (0 <= r->Some_0 < verif_v@.len() && first_idx(verif_v@, reactor) == r->Some_0 && verif_v@[r->Some_0 as int].0 == reactor),
+//@lift.pred| ensures b == (verif_x.0 == reactor),
+//@lift.inv| verif_i <= verif_v@.len(), forall|j: int| 0 <= j < verif_i ==> (#[trigger] verif_v@[j]).0 != reactor,
+//@lift.found| proof { lemma_first_idx_some(verif_v@, reactor, verif_i as int); }
+//@lift.none| proof { lemma_first_idx_none(verif_v@, reactor); }
 //@fn src/react/event_readers.rs impl EventAccessTracker prepare
 //@| ensures final(self).prepared@ == old(self).prepared@.push((system, data_entity)),
 //@|         final(self).currently_reacting == old(self).currently_reacting,
@@ -32,6 +77,17 @@ verus! {
 // ---------------- SystemEventAccessTracker ----------------
 //@struct src/react/system_event_reader.rs SystemEventAccessTracker
 //@impl src/react/system_event_reader.rs impl SystemEventAccessTracker
+//@fn src/react/system_event_reader.rs impl SystemEventAccessTracker start
+//@| ensures ({ let i = first_idx(old(self).prepared@, reactor);
+//@|     if i < 0 { *final(self) == *old(self) }
+//@|     else { final(self).prepared@ == old(self).prepared@.remove(i) && final(self).currently_reacting && final(self).data_entity == old(self).prepared@[i].1 } }),
+//@liftposition let Some(pos) | start_position | (SystemCommand, Entity) |
+//@lift| ensures r is None ==> first_idx(verif_v@, reactor) == -1,
+//@lift|         r is Some ==> (0 <= r->Some_0 < verif_v@.len() && first_idx(verif_v@, reactor) == r->Some_0 && verif_v@[r->Some_0 as int].0 == reactor),
+//@lift.pred| ensures b == (verif_x.0 == reactor),
+//@lift.inv| verif_i <= verif_v@.len(), forall|j: int| 0 <= j < verif_i ==> (#[trigger] verif_v@[j]).0 != reactor,
+//@lift.found| proof { lemma_first_idx_some(verif_v@, reactor, verif_i as int); }
+//@lift.none| proof { lemma_first_idx_none(verif_v@, reactor); }
 //@fn src/react/system_event_reader.rs impl SystemEventAccessTracker prepare
 //@| ensures final(self).prepared@ == old(self).prepared@.push((system, data_entity)),
 //@|         final(self).currently_reacting == old(self).currently_reacting,
@@ -54,6 +110,17 @@ verus! {
 // ---------------- EntityReactionAccessTracker ----------------
 //@struct src/react/entity_reaction_readers.rs EntityReactionAccessTracker
 //@impl src/react/entity_reaction_readers.rs impl EntityReactionAccessTracker
+//@fn src/react/entity_reaction_readers.rs impl EntityReactionAccessTracker start
+//@| ensures ({ let i = first_idx3(old(self).prepared@, reactor);
+//@|     if i < 0 { *final(self) == *old(self) }
+//@|     else { final(self).prepared@ == old(self).prepared@.remove(i) && final(self).currently_reacting && final(self).system == reactor && final(self).reaction_source == old(self).prepared@[i].1 && final(self).reaction_type == old(self).prepared@[i].2 } }),
+//@liftposition let Some(pos) | start_position | (SystemCommand, Entity, EntityReactionType) |
+//@lift| ensures r is None ==> first_idx3(verif_v@, reactor) == -1,
+//@lift|         r is Some ==> (0 <= r->Some_0 < verif_v@.len() && first_idx3(verif_v@, reactor) == r->Some_0 && verif_v@[r->Some_0 as int].0 == reactor),
+//@lift.pred| ensures b == (verif_x.0 == reactor),
+//@lift.inv| verif_i <= verif_v@.len(), forall|j: int| 0 <= j < verif_i ==> (#[trigger] verif_v@[j]).0 != reactor,
+//@lift.found| proof { lemma_first_idx3_some(verif_v@, reactor, verif_i as int); }
+//@lift.none| proof { lemma_first_idx3_none(verif_v@, reactor); }
 //@fn src/react/entity_reaction_readers.rs impl EntityReactionAccessTracker prepare
 //@| ensures final(self).prepared@ == old(self).prepared@.push((system, source, reaction)),
 //@|         final(self).currently_reacting == old(self).currently_reacting,
@@ -76,6 +143,17 @@ verus! {
 // ---------------- DespawnAccessTracker ----------------
 //@struct src/react/despawn_reader.rs DespawnAccessTracker
 //@impl src/react/despawn_reader.rs impl DespawnAccessTracker
+//@fn src/react/despawn_reader.rs impl DespawnAccessTracker start
+//@| ensures ({ let i = first_idx3(old(self).prepared@, reactor);
+//@|     if i < 0 { *final(self) == *old(self) }
+//@|     else { final(self).prepared@ == old(self).prepared@.remove(i) && final(self).currently_reacting && final(self).reaction_source == old(self).prepared@[i].1 && final(self).reactor_handle == Some(old(self).prepared@[i].2) } }),
+//@liftposition let Some(pos) | start_position | (SystemCommand, Entity, ReactorHandle) |
+//@lift| ensures r is None ==> first_idx3(verif_v@, reactor) == -1,
+//@lift|         r is Some ==> (0 <= r->Some_0 < verif_v@.len() && first_idx3(verif_v@, reactor) == r->Some_0 && verif_v@[r->Some_0 as int].0 == reactor),
+//@lift.pred| ensures b == (verif_x.0 == reactor),
+//@lift.inv| verif_i <= verif_v@.len(), forall|j: int| 0 <= j < verif_i ==> (#[trigger] verif_v@[j]).0 != reactor,
+//@lift.found| proof { lemma_first_idx3_some(verif_v@, reactor, verif_i as int); }
+//@lift.none| proof { lemma_first_idx3_none(verif_v@, reactor); }
 //@fn src/react/despawn_reader.rs impl DespawnAccessTracker prepare
 //@| ensures final(self).prepared@ == old(self).prepared@.push((reactor, source, handle)),
 //@|         final(self).currently_reacting == old(self).currently_reacting,
